@@ -64,8 +64,8 @@ Definition init_of_code (z : Z) : init_outcome :=
 Definition outcome_code (o : outcome) : Z :=
   match o with
   | Finished | Swallowed _ => 0       (* Anneal() returned *)
-  | Repanicked _ false => 1           (* re-panicked with the very value *)
-  | Repanicked _ true => 2            (* re-panicked with errors.Wrap of it *)
+  | Repanicked _ _ => 1               (* re-panicked with the injected value or an error wrapping it
+                                         (whether it is wrapped is not compared: not part of the property) *)
   | OutOfFuel => 99
   end.
 
